@@ -1041,6 +1041,57 @@ def n32_canonical_loops(pieces, file, applied):
         applied.add("N32", file, line, f"loop {{ if {cond} {{ break; }} .. }} -> while !({cond}) {{ .. }}")
 
 
+def n38_while_let(pieces, file, applied):
+    """N38: `loop { let X = match E { Some(Y) => Y, None => break, }; REST }` -> `while let Some(X) = E { REST }` (the `let` is the
+    first statement of the body; arms in either order; `break` without label or value).  The desugaring of `while let` written out:
+    the same program; the templates' loop invariants are written for the `while let` form."""
+    while True:
+        si = sig(pieces)
+        hit = None
+        for k in range(len(si) - 12):
+            tx = lambda j: pieces[si[j]].text if j < len(si) else ""
+            if not (tx(k) == "loop" and pieces[si[k]].tkind == "ident" and tx(k + 1) == "{" and tx(k + 2) == "let" and pieces[si[k + 3]].tkind == "ident" and tx(k + 4) == "=" and tx(k + 5) == "match"):
+                continue
+            # scrutinee up to the `{` at depth 0
+            d, j = 0, k + 6
+            while j < len(si):
+                t = pieces[si[j]]
+                if t.tkind == "punct" and t.text in "([":
+                    d += 1
+                elif t.tkind == "punct" and t.text in ")]":
+                    d -= 1
+                elif d == 0 and t.text == "{":
+                    break
+                j += 1
+            if j >= len(si) or j == k + 6:
+                continue
+            mo = j
+            mc = _pmatch(pieces, si, mo, None)
+            arms = [tx(x) for x in range(mo + 1, mc)]
+            a1 = lambda y: ["Some", "(", y, ")", "=>", y, ",", "None", "=>", "break"]
+            a2 = lambda y: ["None", "=>", "break", ",", "Some", "(", y, ")", "=>", y]
+            y = arms[2] if arms[:1] == ["Some"] and len(arms) > 2 else (arms[6] if len(arms) > 6 else None)
+            core = [a for a in arms]
+            if core and core[-1] == ",":
+                core = core[:-1]
+            if y is None or core not in (a1(y), a2(y)) or tx(mc + 1) != ";":
+                continue
+            hit = (k, mo, mc)
+            break
+        if hit is None:
+            return
+        k, mo, mc = hit
+        line = pieces[si[k]].line
+        var = pieces[si[k + 3]].text
+        scrut = "".join(pieces[i].text for i in range(si[k + 6], si[mo - 1] + 1) if not pieces[i].dead).strip()
+        # kill `loop`, and `let X = match E { .. };` ; keep the opening brace of the loop body
+        pieces[si[k]].dead = True
+        kill(pieces, range(si[k + 2], si[mc + 1] + 1))
+        newp = [Piece(t.text, "rw", line, rule="N38", tkind=t.kind) for t in lex(f"while let Some({var}) = {scrut}")]
+        pieces[si[k]:si[k]] = newp
+        applied.add("N38", file, line, f"loop {{ let {var} = match {scrut} {{ Some(y) => y, None => break }}; .. }} -> while let Some({var}) = {scrut} {{ .. }}")
+
+
 def n37_unnegate_if(pieces, file, applied):
     """N37: `if !C { X } else { Y }` -> `if C { Y } else { X }` (C a parenthesised expression, or a path / field / call chain
     without a binary operator at depth 0; the `else` is a plain block, not `else if`; not `if let`).  The same program; the
@@ -1918,6 +1969,7 @@ class Generator:
         if loc["kind"] == "fn":
             n32_canonical_loops(pieces, file, self.applied)
             n37_unnegate_if(pieces, file, self.applied)
+            n38_while_let(pieces, file, self.applied)
         for (nm, pat) in opts.get("locals", []):
             n33_canonical_local(pieces, nm, pat, file, self.applied)
         if "params" in opts and loc["kind"] == "fn":
